@@ -124,6 +124,20 @@ func init() {
 	})
 	dyntpl.RegisterCondFn("vtrue", func(ctx *dyntpl.Ctx, args []any) bool { return true })
 	dyntpl.RegisterCondFn("vfalse", func(ctx *dyntpl.Ctx, args []any) bool { return false })
+	// vok(a, …): the text of the first argument as a byte string, ok iff it is non-empty
+	dyntpl.RegisterCondOKFn("vok", func(ctx *dyntpl.Ctx, v *any, ok *bool, args []any) {
+		*v, *ok = nil, false
+		if len(args) == 0 {
+			return
+		}
+		b, err := x2bytes.ToBytes(nil, args[0])
+		if err != nil || len(b) == 0 {
+			return
+		}
+		cp := append([]byte(nil), b...)
+		*v = &cp
+		*ok = true
+	})
 	_ = dyntpl.RegisterPool("vpool", vpool{})
 }
 
@@ -368,6 +382,10 @@ func errName(err error) string {
 		return "err:unknownpool"
 	case errors.Is(err, errUserFail):
 		return "err:userfail"
+	}
+	var ne *strconv.NumError
+	if errors.As(err, &ne) && (ne.Func == "ParseInt" || ne.Func == "ParseUint" || ne.Func == "ParseFloat" || ne.Func == "ParseBool") {
+		return "err:parse" // a code-generated inspector could not parse the right side of a comparison
 	}
 	return "err:other(" + strings.ReplaceAll(err.Error(), " ", "_") + ")"
 }
